@@ -20,6 +20,7 @@ index, map writes), third-party code (openfga/language graph builder, cel-go, pr
 -/
 import OpenFGAVerif.Model.Panics
 import OpenFGAVerif.Gen.Panics
+import OpenFGAVerif.Gen.Release
 import OpenFGAVerif.Proofs.CheckV1Termination
 import OpenFGAVerif.Proofs.KeysPb
 
@@ -205,6 +206,49 @@ theorem tie_memory_token_errors :
     Gen.Panics.memoryTokenParseErrors =
       ["return nil, storage.ErrInvalidContinuationToken", "return nil, \"\", storage.ErrInvalidContinuationToken",
        "return nil, \"\", storage.ErrInvalidContinuationToken"] := rfl
+
+/-- memory datastore, offset pagination: in both functions the offset is clamped into `[0, len]` BEFORE the upper
+slice bound is derived from it, and the slice uses exactly these two -/
+theorem tie_memory_page_bounds : Gen.Panics.memoryPageBounds =
+    ["ReadAuthorizationModels: from, err = strconv.Atoi(options.Pagination.From)",
+     "ReadAuthorizationModels: from = max(0, min(from, len(models)))",
+     "ReadAuthorizationModels: to := min(len(models), from+pageSize)",
+     "ReadAuthorizationModels: slice models[from:to]",
+     "ListStores: from, err = strconv.Atoi(options.Pagination.From)",
+     "ListStores: from = max(0, min(len(stores), from))",
+     "ListStores: to := min(len(stores), from+pageSize)",
+     "ListStores: slice stores[from:to]"] := rfl
+
+/-- **the page slice never panics**, whatever offset the token carries (any integer: negative, `MinInt64`,
+`MaxInt64`), for every list length and page size that fit an `int` together -/
+theorem page_slice_no_panic (len pageSize : Nat) (offset : Int) (hfit : (len : Int) + pageSize < 9223372036854775808) :
+    sliceOK len (pageBounds len pageSize offset) = true := by
+  have hw : ∀ x : Int, 0 ≤ x → x < 9223372036854775808 → wrap64 x = x := by
+    intro x h0 h1; unfold wrap64; omega
+  have hf : 0 ≤ max 0 (min offset (len : Int)) ∧ max 0 (min offset (len : Int)) ≤ len := by omega
+  have e : pageBounds len pageSize offset =
+      (max 0 (min offset (len : Int)), min (len : Int) (max 0 (min offset (len : Int)) + pageSize)) := by
+    unfold pageBounds
+    simp only []
+    rw [hw _ (by omega) (by omega)]
+  rw [e]
+  simp only [sliceOK, Bool.and_eq_true, decide_eq_true_eq]
+  omega
+
+/-- **negative witnesses** for the other statement order (upper bound from the unclamped offset): offsets `≤ -pageSize`
+and offsets near `MaxInt64` give a negative upper bound — `slice bounds out of range` -/
+theorem page_slice_panics_unclamped :
+    sliceOK 3 (pageBoundsUnclamped 3 50 (-100)) = false ∧ sliceOK 3 (pageBoundsUnclamped 3 50 (-51)) = false ∧
+    sliceOK 3 (pageBoundsUnclamped 3 50 9223372036854775807) = false ∧
+    sliceOK 3 (pageBoundsUnclamped 3 50 (-9223372036854775808)) = false ∧
+    sliceOK 3 (pageBoundsUnclamped 3 50 2) = true := by decide
+
+/-- **cancel before Wait**: in every function of the evaluation packages that defers a pool / wait-group `Wait()`, the
+deferred cancel of the function's own context runs first in execution order (defers are last-in-first-out); waiting
+first parks the request until the CALLER's context ends — a hang past any deadline when there is none -/
+theorem tie_cancel_before_wait : Gen.Release.deferOrders.all (fun d => d.2.2) = true ∧
+    (Gen.Release.deferOrders.filter (fun d => d.1 = "graph/default_resolver:defaultTTU.func1" || d.1 = "graph/default_resolver:defaultUserset.func1")).map (·.2.1) =
+      ["cancelFunc() ; _ = pool.Wait() ; span.End()", "cancelFunc() ; _ = pool.Wait() ; span.End()"] := by decide
 
 theorem tie_typed_stores : Gen.Panics.computedRelationsStores = ["relation"] := rfl
 
